@@ -90,14 +90,15 @@ theorem delro_cs_t (ro : Rollout) (f : Bool) (wl : Option WL) (hd : ro.deleting 
   unfold calculateStatus
   rw [if_pos hd, if_neg (fun h => h hp)]
 
-/-! ### how the reconcile of a rollout under deletion is computed (any finalizer outcome, any new status) -/
+/-! ### how the reconcile of a rollout under deletion is computed (any finalizer outcome, any new status): the body
+`reconcileCore`; the cursor reset that follows it is handled once, in `del_land` -/
 
 /-- Healthy: only the status is written -/
 theorem delro_rec_plain (w : World) (wl : WL) (ro1 ns : Rollout) (g : Bool) (ws0 : List String)
     (hhf : handleFinalizer w.ro = (ro1, g, ws0)) (hwl : w.wl = some wl) (hcs : calculateStatus ro1 (some wl) = some ns)
     (hph : w.ro.phase = .healthy) :
-    reconcile w = .val { w := { w with ro := ns }, roGone := g, requeue := false, err := false, writes := ws0 } := by
-  unfold reconcile
+    reconcileCore w = .val { w := { w with ro := ns }, roGone := g, requeue := false, err := false, writes := ws0 } := by
+  unfold reconcileCore
   dsimp only
   rw [hhf]
   dsimp only
@@ -109,8 +110,8 @@ theorem delro_rec_plain (w : World) (wl : WL) (ro1 ns : Rollout) (g : Bool) (ws0
 theorem delro_rec_termc (w : World) (wl : WL) (ro1 ns : Rollout) (g : Bool) (ws0 : List String)
     (hhf : handleFinalizer w.ro = (ro1, g, ws0)) (hwl : w.wl = some wl) (hcs : calculateStatus ro1 (some wl) = some ns)
     (hph : w.ro.phase = .terminating) (ht : w.ro.term = .completed) :
-    reconcile w = .val { w := { w with ro := ns }, roGone := g, requeue := false, err := false, writes := ws0 } := by
-  unfold reconcile
+    reconcileCore w = .val { w := { w with ro := ns }, roGone := g, requeue := false, err := false, writes := ws0 } := by
+  unfold reconcileCore
   dsimp only
   rw [hhf]
   dsimp only
@@ -126,12 +127,12 @@ theorem delro_rec_termi (w : World) (wl : WL) (ro1 ns : Rollout) (g : Bool) (ws0
     (hhf : handleFinalizer w.ro = (ro1, g, ws0)) (hwl : w.wl = some wl) (hcs : calculateStatus ro1 (some wl) = some ns)
     (hph : w.ro.phase = .terminating) (ht : w.ro.term = .inTerminating)
     (hfz : finalise w ns (some wl) .other false = some (w', d, e, ws)) :
-    reconcile w =
+    reconcileCore w =
       if e then .val { w := { w' with ro := ro1 }, roGone := g, requeue := false, err := true, writes := ws0 ++ ws }
       else if d then .val { w := { w' with ro := { w'.ro with term := .completed } }, roGone := g, requeue := false,
                             err := false, writes := ws0 ++ ws }
       else .val { w := w', roGone := g, requeue := true, err := false, writes := ws0 ++ ws } := by
-  unfold reconcile
+  unfold reconcileCore
   dsimp only
   rw [hhf]
   dsimp only
@@ -147,8 +148,8 @@ theorem delro_rec_termi (w : World) (wl : WL) (ro1 ns : Rollout) (g : Bool) (ws0
 theorem delro_rec_incons (w : World) (wl : WL) (ro1 ns : Rollout) (g : Bool) (ws0 : List String)
     (hhf : handleFinalizer w.ro = (ro1, g, ws0)) (hwl : w.wl = some wl) (hcs : calculateStatus ro1 (some wl) = some ns)
     (hph : w.ro.phase = .progressing) (hc : wl.consistent = false) :
-    reconcile w = .val { w := { w with ro := ns }, roGone := g, requeue := false, err := false, writes := ws0 } := by
-  unfold reconcile
+    reconcileCore w = .val { w := { w with ro := ns }, roGone := g, requeue := false, err := false, writes := ws0 } := by
+  unfold reconcileCore
   dsimp only
   rw [hhf]
   dsimp only
@@ -163,13 +164,11 @@ theorem delro_rec_init (w : World) (wl : WL) (ro1 ns : Rollout) (g : Bool) (ws0 
     (hhf : handleFinalizer w.ro = (ro1, g, ws0)) (hwl : w.wl = some wl) (hcs : calculateStatus ro1 (some wl) = some ns)
     (hph : w.ro.phase = .progressing) (hc : wl.consistent = true) (hr : w.ro.reason = .initializing)
     (hne : ns.steps ≠ []) :
-    reconcile w = .val { w := { w with ro := ro1 }, roGone := g, requeue := false, err := true, writes := ws0 } ∨
-    reconcile w = .val { w := { w with ro := { ns with sub := some (initSub ns wl) } }, roGone := g, requeue := true,
-                         err := false, writes := ws0 } ∨
-    reconcile w = .val { w := { w with ro := { ns with sub := some (initSub ns wl), reason := .inRolling } }, roGone := g,
-                         requeue := false, err := false, writes := ws0 } := by
+    reconcileCore w = .val { w := { w with ro := ro1 }, roGone := g, requeue := false, err := true, writes := ws0 } ∨
+    reconcileCore w = .val { w := { w with ro := { ns with sub := some (initSub ns wl) } }, roGone := g, requeue := true, err := false, writes := ws0 } ∨
+    reconcileCore w = .val { w := { w with ro := { ns with sub := some (initSub ns wl), reason := .inRolling } }, roGone := g, requeue := false, err := false, writes := ws0 } := by
   have hne' : ns.steps.isEmpty = false := by simpa using hne
-  unfold reconcile
+  unfold reconcileCore
   dsimp only
   rw [hhf]
   dsimp only
@@ -192,10 +191,10 @@ theorem delro_rec_roll (w : World) (wl : WL) (ro1 ns : Rollout) (g : Bool) (ws0 
     (hhf : handleFinalizer w.ro = (ro1, g, ws0)) (hwl : w.wl = some wl) (hcs : calculateStatus ro1 (some wl) = some ns)
     (hph : w.ro.phase = .progressing) (hc : wl.consistent = true) (hr : w.ro.reason = .inRolling)
     (hs1 : ns.sub = some s1) (hin : inRolling w w.ro ns s1 wl = .val r) :
-    reconcile w =
+    reconcileCore w =
       if r.err then .val { w := { r.w with ro := ro1 }, roGone := g, requeue := false, err := true, writes := ws0 ++ r.writes }
       else .val { w := r.w, roGone := g, requeue := r.requeue, err := false, writes := ws0 ++ r.writes } := by
-  unfold reconcile
+  unfold reconcileCore
   dsimp only
   rw [hhf]
   dsimp only
@@ -215,12 +214,12 @@ theorem delro_rec_fin (w : World) (wl : WL) (ro1 ns : Rollout) (g : Bool) (ws0 :
     (hhf : handleFinalizer w.ro = (ro1, g, ws0)) (hwl : w.wl = some wl) (hcs : calculateStatus ro1 (some wl) = some ns)
     (hph : w.ro.phase = .progressing) (hc : wl.consistent = true) (hr : w.ro.reason = .finalising)
     (hfz : finalise w ns (some wl) .success true = some (w', d, e, ws)) :
-    reconcile w =
+    reconcileCore w =
       if e then .val { w := { w' with ro := ro1 }, roGone := g, requeue := false, err := true, writes := ws0 ++ ws }
       else if d then .val { w := { w' with ro := { w'.ro with reason := .completed, succeeded := some true } }, roGone := g,
                             requeue := false, err := false, writes := ws0 ++ ws }
       else .val { w := w', roGone := g, requeue := true, err := false, writes := ws0 ++ ws } := by
-  unfold reconcile
+  unfold reconcileCore
   dsimp only
   rw [hhf]
   dsimp only
@@ -236,9 +235,8 @@ theorem delro_rec_fin (w : World) (wl : WL) (ro1 ns : Rollout) (g : Bool) (ws0 :
 theorem delro_rec_done (w : World) (wl : WL) (ro1 ns : Rollout) (g : Bool) (ws0 : List String)
     (hhf : handleFinalizer w.ro = (ro1, g, ws0)) (hwl : w.wl = some wl) (hcs : calculateStatus ro1 (some wl) = some ns)
     (hph : w.ro.phase = .progressing) (hc : wl.consistent = true) (hr : w.ro.reason = .completed) :
-    reconcile w = .val { w := { w with ro := { ns with phase := .healthy } }, roGone := g, requeue := false, err := false,
-                         writes := ws0 } := by
-  unfold reconcile
+    reconcileCore w = .val { w := { w with ro := { ns with phase := .healthy } }, roGone := g, requeue := false, err := false, writes := ws0 } := by
+  unfold reconcileCore
   dsimp only
   rw [hhf]
   dsimp only
@@ -296,7 +294,7 @@ structure DelroCtx (s : CS) (w : CWl) (f g : Bool) (ws0 : List String) : Prop wh
   gf : g = false → f = true
 
 /-- the general landing: a reconcile result whose BatchRelease / workload writes land as `(br', some w')` -/
-theorem del_land (s : CS) (w : CWl) (f g : Bool) (ws0 : List String) (D : DelroCtx s w f g ws0) (r : StepResult)
+theorem del_land_whole (s : CS) (w : CWl) (f g : Bool) (ws0 : List String) (D : DelroCtx s w f g ws0) (r : StepResult)
     (w' : CWl) (br' : Option CBr) (hrec : reconcile (roWorld s) = .val r) (hg : r.roGone = g)
     (hland : landBR s.br r.w.br (annoLand s.wl r.w.wl) = (br', some w'))
     (hsame : Same s.ro r.w.ro) (hfin : r.w.ro.hasFinalizer = f)
@@ -314,9 +312,45 @@ theorem del_land (s : CS) (w : CWl) (f g : Bool) (ws0 : List String) (D : DelroC
     | true => exact Or.inl rfl
     | false => exact Or.inr ⟨D.good.of_same hsame (hfin.trans (D.gf rfl)), hph rfl⟩
 
+/-- the phase-dependent part of the deletion invariant does not see the cursor reset: where the reset fires the rollout is
+    Terminating (or Disabling), and there the invariant does not read the cursor -/
+theorem delro_ph_reset (W : World) (r0 : StepResult) (w' : CWl) (br' : Option CBr) :
+    delro_ph ⟨false, (resetOnExit W r0).w.ro, some w', br', (resetOnExit W r0).w.net, (resetOnExit W r0).w.mem⟩ w' =
+    delro_ph ⟨false, r0.w.ro, some w', br', r0.w.net, r0.w.mem⟩ w' := by
+  cases hx : exitsProgressing W r0 with
+  | false => rw [resetOnExit_of_not W r0 hx]
+  | true =>
+    simp only [exitsProgressing, Bool.and_eq_true, Bool.or_eq_true, decide_eq_true_eq] at hx
+    unfold delro_ph
+    dsimp only
+    rw [resetOnExit_phase, resetOnExit_term]
+    rcases hx.2 with h | h <;> rw [h]
+
+theorem same_reset (a : Rollout) (W : World) (r0 : StepResult) (h : Same a r0.w.ro) : Same a (resetOnExit W r0).w.ro := by
+  rw [resetOnExit_ro]
+  split
+  · exact h
+  · exact h
+
+/-- the general landing: the result `r0` of the body of a reconcile (`reconcileCore`) whose BatchRelease / workload writes land
+    as `(br', some w')`; the whole reconcile is `r0` after the cursor reset, which none of the premises sees -/
+theorem del_land (s : CS) (w : CWl) (f g : Bool) (ws0 : List String) (D : DelroCtx s w f g ws0) (r0 : StepResult)
+    (w' : CWl) (br' : Option CBr) (hrec : reconcileCore (roWorld s) = .val r0) (hg : r0.roGone = g)
+    (hland : landBR s.br r0.w.br (annoLand s.wl r0.w.wl) = (br', some w'))
+    (hsame : Same s.ro r0.w.ro) (hfin : r0.w.ro.hasFinalizer = f)
+    (hwok : wlOK w' = true) (hrep : w'.replicas = w.replicas) (hbr : brOKo br' = true)
+    (hph : g = false → delro_ph ⟨false, r0.w.ro, some w', br', r0.w.net, r0.w.mem⟩ w' = true) :
+    ∃ s', stepRo s = some s' ∧ delInv s' = true := by
+  refine del_land_whole s w f g ws0 D (resetOnExit (roWorld s) r0) w' br' (reconcile_of_core hrec) ?_ ?_ ?_ ?_ hwok hrep hbr ?_
+  · rw [resetOnExit_roGone]; exact hg
+  · rw [resetOnExit_br, resetOnExit_wl]; exact hland
+  · exact same_reset _ _ _ hsame
+  · rw [resetOnExit_hasFinalizer]; exact hfin
+  · intro hg0; rw [delro_ph_reset]; exact hph hg0
+
 /-- a reconcile that wrote neither the workload nor the BatchRelease -/
 theorem del_status (s : CS) (w : CWl) (f g : Bool) (ws0 : List String) (D : DelroCtx s w f g ws0) (r : StepResult)
-    (hrec : reconcile (roWorld s) = .val r) (hg : r.roGone = g)
+    (hrec : reconcileCore (roWorld s) = .val r) (hg : r.roGone = g)
     (hwl : r.w.wl = (roWorld s).wl) (hbr : r.w.br = (roWorld s).br)
     (hsame : Same s.ro r.w.ro) (hfin : r.w.ro.hasFinalizer = f)
     (hph : g = false → delro_ph ⟨false, r.w.ro, some w, s.br, r.w.net, r.w.mem⟩ w = true) :
